@@ -15,3 +15,70 @@ func init() {
 		})
 	})
 }
+
+func init() {
+	// C04: read-your-writes: long single transactions over a committed snapshot
+	register("C04", func(c *Ctx) error {
+		return runSysProfile(c, func(i int) *profile {
+			return &profile{name: "own-writes", wBegin: 2, wModify: 20, wGet: 14, wIter: 10, wCommit: 2, wDiscard: 1, wFlush: 2, wCompact: 1,
+				nOps: 40 + c.Rng.Intn(40), keys: keySetA[:3+c.Rng.Intn(9)], reverse: true, prefix: true, since: true, expiry: true,
+				nkeeps: []int{1}, detect: true}
+		})
+	})
+	// C05: iterators over data spread across memtable / L0 / deeper levels, all options
+	register("C05", func(c *Ctx) error {
+		return runSysProfile(c, func(i int) *profile {
+			return &profile{name: "iterators", wBegin: 4, wModify: 14, wGet: 2, wIter: 16, wCommit: 7, wDiscard: 1, wFlush: 5, wCompact: 4, wL0L0: 1,
+				nOps: 50 + c.Rng.Intn(50), keys: keySetA[:4+c.Rng.Intn(8)], allVersions: true, reverse: true, prefix: true, since: true, expiry: true, discardBit: true,
+				nkeeps: []int{1, 3, 100}, detect: false}
+		})
+	})
+	// C06: values around the value threshold (32): inline and value-log placements
+	register("C06", func(c *Ctx) error {
+		return runSysProfile(c, func(i int) *profile {
+			return &profile{name: "values", wBegin: 4, wModify: 16, wGet: 12, wIter: 6, wCommit: 8, wDiscard: 1, wFlush: 4, wCompact: 3,
+				nOps: 40 + c.Rng.Intn(40), keys: keySetA[:4+c.Rng.Intn(6)], allVersions: true, reverse: true, expiry: true, discardBit: true,
+				nkeeps: []int{1, 2}, detect: false, bigValues: true}
+		})
+	})
+	// C13: retention: many versions per key, NumVersionsToKeep, discard bit, TTL, deep compaction
+	register("C13", func(c *Ctx) error {
+		return runSysProfile(c, func(i int) *profile {
+			p := &profile{name: "retention", wBegin: 5, wModify: 18, wGet: 3, wIter: 8, wCommit: 10, wDiscard: 1, wFlush: 7, wCompact: 9, wL0L0: 1, wDump: 2,
+				nOps: 70 + c.Rng.Intn(60), keys: keySetA[:2+c.Rng.Intn(3)], allVersions: true, expiry: true, discardBit: true,
+				nkeeps: []int{1, 2, 3, 1 << 30}, detect: false}
+			if i%3 == 0 {
+				p.managed, p.monotone, p.wSetDiscard = true, true, 4
+			}
+			return p
+		})
+	})
+	// C27: write batches, tiny memtable so that batches split
+	register("C27", func(c *Ctx) error {
+		return runSysProfile(c, func(i int) *profile {
+			p := &profile{name: "batch", wBegin: 2, wModify: 2, wGet: 6, wIter: 3, wCommit: 2, wDiscard: 1, wFlush: 2, wCompact: 1, wBatch: 10,
+				nOps: 25 + c.Rng.Intn(25), keys: keySetA[:3+c.Rng.Intn(6)], allVersions: true,
+				nkeeps: []int{1, 100}, detect: false, memSize: 1 << 20}
+			if i%2 == 1 {
+				p.managed, p.monotone = true, true
+			}
+			return p
+		})
+	})
+	// C33: expiry
+	register("C33", func(c *Ctx) error {
+		return runSysProfile(c, func(i int) *profile {
+			return &profile{name: "expiry", wBegin: 5, wModify: 16, wGet: 10, wIter: 8, wCommit: 8, wDiscard: 1, wFlush: 4, wCompact: 5,
+				nOps: 50 + c.Rng.Intn(40), keys: keySetA[:3+c.Rng.Intn(5)], allVersions: true, reverse: true, expiry: true,
+				nkeeps: []int{1, 2}, detect: false, bigValues: i%2 == 0}
+		})
+	})
+	// C36: managed mode, caller-chosen timestamps
+	register("C36", func(c *Ctx) error {
+		return runSysProfile(c, func(i int) *profile {
+			return &profile{name: "managed", managed: true, monotone: true, wBegin: 6, wModify: 14, wGet: 10, wIter: 5, wCommit: 8, wDiscard: 1, wFlush: 4, wCompact: 5, wSetDiscard: 3, wBatch: 3,
+				nOps: 50 + c.Rng.Intn(50), keys: keySetA[:3+c.Rng.Intn(6)], allVersions: true, reverse: true, discardBit: true,
+				nkeeps: []int{1, 2, 100}, detect: i%2 == 0}
+		})
+	})
+}
